@@ -1,10 +1,12 @@
 """Thorough tier: checker self-test.
 
 Every patch kept under variants/<ID>/ (my own mutants and reverts of the fix commits) and seeded/<ID>-*/
-(changes produced by independent sub-agents and confirmed by hand) is applied to a scratch copy of the CURRENT
+(changes produced by independent sub-agents and confirmed by hand), and every behaviour-preserving refactoring under
+refactors/ that is mapped to the property, is applied to a scratch copy of the CURRENT
 working tree of the repository (never to the repository itself), facts are re-extracted from that copy and the
 property's rules are run on it. A variant that is expected to be caught must produce a VIOLATION; a seeded change
-recorded as a miss must still be a miss (otherwise its record is out of date). Nothing is executed from the
+recorded as a miss must still be a miss (otherwise its record is out of date); on a refactoring the check must exit 0
+(anything else is a false alarm of the checker). Nothing is executed from the
 repository: each run is the same static analysis on a different source tree.
 
 Outcome: 0 = all expectations met; 2 (CHECK-ERROR) = a variant that used to be detected is no longer detected.
@@ -34,8 +36,20 @@ def patches_for(pid):
     return out
 
 
+def refactors_for(pid):
+    """behaviour-preserving refactorings mapped to this property: the check must stay silent on them"""
+    try:
+        with open(os.path.join(VERIF, "refactors", "index.json")) as fh:
+            idx = json.load(fh)["patches"]
+    except OSError:
+        return []
+    return [(os.path.join("refactors", n), os.path.join(VERIF, "refactors", n)) for n, v in sorted(idx.items())
+            if pid in v.get("properties", [])]
+
+
 def run(pid):
     pats = patches_for(pid)
+    pats = [(r, p, "caught" if c else "miss") for r, p, c in pats] + [(r, p, "silent") for r, p in refactors_for(pid)]
     if not pats:
         print("[%s] self-test: no variants recorded" % pid)
         return 0
@@ -50,7 +64,8 @@ def run(pid):
         subprocess.run("git add -A >/dev/null && git -c user.name=s -c user.email=s@s commit -qm base", cwd=scratch, shell=True, check=True)
         env = dict(os.environ, VERIF_REPO=scratch, VERIF_TARGET=os.path.join(base, "target"),
                    VERIF_EVIDENCE_DIR=os.path.join(base, "evidence"), VERIF_TIER="quick")
-        for rel, path, expect_caught in pats:
+        for rel, path, expect in pats:
+            expect_caught = expect == "caught"
             a = subprocess.run(["git", "apply", path], cwd=scratch, stdout=subprocess.PIPE, stderr=subprocess.STDOUT, text=True)
             if a.returncode != 0:
                 results.append((rel, "stale", "does not apply to the current tree"))
@@ -60,6 +75,10 @@ def run(pid):
             subprocess.run("git checkout -q -- . && git clean -fdq", cwd=scratch, shell=True)
             viol = [l for l in p.stdout.splitlines() if l.startswith("VIOLATION property=%s" % pid)]
             fails = [l.strip() for l in p.stdout.splitlines() if l.strip().startswith("FAILS ")]
+            if expect == "silent":
+                verdict = "silent (as required)" if p.returncode == 0 else "FALSE-ALARM"
+                results.append((rel, verdict, (fails[0][:160] if fails else (p.stdout.strip().splitlines() or [""])[-1][:160]) if p.returncode else ""))
+                continue
             if p.returncode == 1 and viol:
                 verdict = "caught" if expect_caught else "caught-but-recorded-as-miss"
             elif p.returncode == 0:
@@ -69,7 +88,7 @@ def run(pid):
             results.append((rel, verdict, (fails[0][:160] if fails else p.stdout.strip().splitlines()[-1][:160] if p.stdout.strip() else "")))
     finally:
         shutil.rmtree(base, ignore_errors=True)
-    bad = [r for r in results if r[1] in ("MISSED", "check-error")]
+    bad = [r for r in results if r[1] in ("MISSED", "check-error", "FALSE-ALARM")]
     for rel, verdict, detail in results:
         print("[%s] self-test %-28s %s  %s" % (pid, verdict, rel, detail))
     # append to the evidence file written by the run on the real tree
@@ -81,12 +100,14 @@ def run(pid):
             "what": "each recorded variant applied to a scratch copy of the current tree, facts re-extracted, rules re-run",
             "variants": [{"patch": r, "verdict": v, "first_report": d} for r, v, d in results],
             "caught": sum(1 for r in results if r[1] == "caught"), "stale": sum(1 for r in results if r[1] == "stale"),
+            "refactorings_silent": sum(1 for r in results if r[1].startswith("silent")),
             "recorded_misses": sum(1 for r in results if r[1].startswith("miss")), "seconds": round(time.time() - t0, 1)}
         with open(evp, "w") as fh:
             json.dump(ev, fh, indent=1)
     except (OSError, KeyError, ValueError):
         pass
     if bad:
-        print("CHECK-ERROR property=%s self-test: %d recorded variant(s) no longer detected: %s" % (pid, len(bad), [b[0] for b in bad]))
+        print("CHECK-ERROR property=%s self-test: %d expectation(s) not met (variant no longer detected, or an alarm on a "
+              "behaviour-preserving refactoring): %s" % (pid, len(bad), [b[0] for b in bad]))
         return 2
     return 0
